@@ -618,7 +618,7 @@ func selectOne(cl *e2erig.Client) error {
 }
 
 func cleanScratch() {
-	ms, _ := filepath.Glob(filepath.Join(os.TempDir(), "c38-[0-9]*"))
+	ms, _ := filepath.Glob(filepath.Join(c38ScratchRoot(), "c38-[0-9]*"))
 	for _, m := range ms {
 		os.RemoveAll(m)
 	}
@@ -939,4 +939,11 @@ func crashSite(stderr string) string {
 		}
 	}
 	return "unknown"
+}
+
+func c38ScratchRoot() string {
+	if d := os.Getenv("VERIF_BUILD_DIR"); d != "" {
+		return d
+	}
+	return os.TempDir()
 }
